@@ -49,6 +49,12 @@ func TestC08_P_Differential(t *testing.T) {
 		for i, n := range names {
 			es[i] = entryFor(n, salt)
 		}
+		if rapid.IntRange(0, 4).Draw(t, "hugeEntrySizes") == 0 {
+			// entries that are links to very large things: their own Tsize does not fit 32 bits
+			for i := rapid.IntRange(1, 3).Draw(t, "nHuge"); i > 0; i-- {
+				es[rapid.IntRange(0, len(es)-1).Draw(t, "hugeAt")].Tsize = rapid.SampledFrom([]uint64{1<<32 - 1, 1 << 32, 1<<32 + 1, 5 << 30, 1 << 40, 1 << 50}).Draw(t, "hugeTsize")
+			}
+		}
 		es = rapid.Permutation(es).Draw(t, "order")
 		if rapid.IntRange(0, 3).Draw(t, "otherHashPrelude") == 0 {
 			must(t, "builds with another name-hash function", func() { otherBuilds(salt) }) // history: must not affect what follows
